@@ -20,7 +20,7 @@ def graph_calls(tier):
     refs = [['n', 0], ['n', 1]] + [['new', l, i] for l in (0, 1) for i in ([2, 0] if tier == 'quick' else [2, 0, 1])]
     calls = [['add_node', l, i] for l in (0, 1) for i in nid]
     calls += [['remove_node', k] for k in (0, 1)]
-    for lk, (name, typ, term) in enumerate(R.EDGE_LABELS):
+    for lk, (name, typ, term) in enumerate(R.EDGE_LABELS[:R.N_GRAPH_LABELS]):
         for att in itertools.product(refs, repeat=len(typ)):
             for i in eid:
                 calls.append(['add_edge', lk, [list(a) for a in att], i])
